@@ -221,7 +221,7 @@ func HC20_Resources() {
 	var ents [4]ecs.Entity
 	ne := 0
 	var q ecs.Query
-	steps := 2 + 2*vTier()
+	steps := 2 + vTier()
 	for s := 0; s < steps; s++ {
 		switch vChoice("op", 7) {
 		case 0:
